@@ -5,7 +5,7 @@ from vlib import core
 
 PID = "C14"
 ENTRIES = {"c14show": ("Print.Entry", "entry_c14_show"), "c14tok": ("Print.Entry", "entry_c14_tok"),
-           "c14sep": ("Print.Entry", "entry_c14_sep")}
+           "c14sep": ("Print.Entry", "entry_c14_sep"), "c14parse": ("Print.Entry", "entry_c14_parse")}
 TRUSTED = [
     "modelled, not verified: brush-parser/src/ast.rs Display impls on the sub-grammar of Print/Show.v (hand model, tied "
     "by string equality with format!(\"{}\") of the real AST on every generated program of the sub-grammar) and the "
@@ -95,7 +95,10 @@ class Gen:
         if kind < 0.55:
             words = ["echo"] + [self.word() for _ in range(self.rng.randrange(0, 4))]
         elif kind < 0.65:
-            words = ["printf", "'%s\\n'" if not self.plain else "%s", self.word()]
+            if self.plain and self.runnable:
+                words = ["echo", self.word()]      # no unterminated lines when stages share a sink
+            else:
+                words = ["printf", "'%s\\n'" if not self.plain else "%s", self.word()]
         elif kind < 0.72:
             words = [self.pick([":", "true", "false"])]
         elif kind < 0.8:
@@ -274,8 +277,8 @@ class Gen:
                 nosemi = True
         return out
 
-    def function(self):
-        body = self.lst(3)
+    def function(self, depth=3):
+        body = self.lst(depth)
         if self.rng.random() < 0.1:
             src = "f() ( %s )%s" % (body, self.sp_redirs())
             self.feat.add("subshell_body")
@@ -311,6 +314,8 @@ def classify(feat, verdict):
         return "KF-C14-pipe-amp-glue"
     if "procsub_arg" in feat:
         return "KF-C14-procsub-double-paren"
+    if "nested_subshell" in feat:
+        return "KF-C14-nested-subshell-arith"
     return None
 
 
@@ -364,9 +369,9 @@ def bash_behaviour(src, call, cwd_root, k):
     return norm(res + "".join(files)), syntax
 
 
-def run(ctx, extended=False):
+def code_round_trip(ctx, extended, specv):
+    """A. the code itself on the full grammar (needs no model)"""
     rng = ctx.rng
-    mism, specv = [], []
     # ------------------------------------------------------------------ A. the code itself, full grammar
     n_full = 1500 if ctx.quick else 12000
     if extended:
@@ -380,6 +385,8 @@ def run(ctx, extended=False):
         call = rng.choice(CALLS) if runnable else ""
         if re.search(r"\| &>", src):
             g.feat.add("pipe_amp_redir")
+        if re.search(r"\( \(", src):
+            g.feat.add("nested_subshell")
         progs.append((src, call, frozenset(g.feat)))
     res = ctx.impl("c14rt", [[s, c] for s, c, _ in progs])
     verdicts = {}
@@ -461,6 +468,13 @@ def run(ctx, extended=False):
     import shutil
     shutil.rmtree(cwd_root, ignore_errors=True)
 
+    return progs, rt, verdicts, by_feat, unparsed, bash_stats
+
+
+def run(ctx, extended=False):
+    rng = ctx.rng
+    mism, specv = [], []
+    progs, rt, verdicts, by_feat, unparsed, bash_stats = code_round_trip(ctx, extended, specv)
     # ------------------------------------------------------------------ B. printer model == Display on the sub-grammar
     n_plain = 2500 if ctx.quick else 20000
     if extended:
@@ -468,7 +482,7 @@ def run(ctx, extended=False):
     psrc = []
     for i in range(n_plain):
         g = Gen(rng, plain=True, size=rng.choice([3, 8, 20]), clean=(i % 2 == 0))
-        s = g.function()
+        s = g.function(0 if i % 3 == 0 else 3)      # every third one flat: the parser model's sub-grammar
         if re.search(r"\| &>", s):
             g.feat.add("pipe_amp_redir")
         psrc.append((s, frozenset(g.feat)))
@@ -495,11 +509,17 @@ def run(ctx, extended=False):
     for (s, feat), want, sl, tl in zip(msrc, mexp, sep, toks):
         sf = core.dec_line(sl)
         tf = core.dec_line(tl)
-        lex = sf[1:]
+        lex = sf[2:]
+        model_ok = sf[1:2] == ["1"]     # hypothesis of c14_show_separates_gen for the regenerated flags
+        if model_ok and sf[:1] != ["1"]:
+            raise core.CheckBroken("the model contradicts its own theorem show_separates_gen on %r" % s)
         if tf != lex:
             # the real tokenizer does not give back the lexemes the printer meant: the property's token-level core
             sep_fail += 1
-            kf = classify(feat, "T")
+            # the class Known of Properties/C14.v, decided by the model itself (ok_cmd = false); the python
+            # features only choose which finding id it is reported under
+            kf = None if model_ok else ("KF-C14-pipe-amp-glue" if "pipe_amp_redir" in feat and "risky_redirs" not in feat
+                                        else "KF-C14-redirect-list-glue")
             if kf and sum(1 for x in specv if x.get("known") == kf) > 40:
                 continue
             specv.append({"input": {"source": s, "features": sorted(feat)}, "printed": want,
@@ -509,6 +529,17 @@ def run(ctx, extended=False):
         if (sf[:1] == ["1"]) != (tf == lex):
             mism.append({"source": s, "what": "tokenizer model and real tokenizer disagree on whether the printed text separates",
                          "model_ok": sf[:1], "real": tf[:60], "lexemes": lex[:60]})
+    # parser model (flat function definitions): parse(tokenize(printed text)) must be the AST the real parser built
+    pm = ctx.model("c14parse", [c + [w] for c, w in zip(mcases, mexp)])
+    flat_n = 0
+    for (s, feat), fields, want, pl in zip(msrc, mcases, mexp, pm):
+        pf_ = core.dec_line(pl)
+        if pf_[:2] == ["F", "1"]:
+            flat_n += 1
+            if pf_[2:] != fields:
+                mism.append({"source": s, "what": "parser model: parse(tokenize(printed text)) differs from the real parser's AST",
+                             "printed": want, "model_ast": pf_[2:60], "code_ast": fields[:60]})
+
     # tokenizer model vs real tokenizer on random plain strings
     talpha = list("ab1 ;&|<>()\n\t-=/7") + ["2>", ">&", "<<<", "&>", ";;"]
     tstr = ["".join(rng.choice(talpha) for _ in range(rng.randrange(0, 14))) for _ in range(3000 if ctx.quick else 30000)]
@@ -544,7 +575,8 @@ def run(ctx, extended=False):
         "samples": [{"source": progs[0][0], "printed": rt[0][1] if rt[0] else None}, {"source": psrc[1][0]}],
         "distribution": {"verdicts": verdicts, "by_feature_cases_failing": {k: v for k, v in sorted(by_feat.items())},
                          "not_accepted_by_brush": unparsed, "subgrammar_programs": len(mcases), "subgrammar_skipped": skipped,
-                         "printed_texts_not_separating": sep_fail, "tokenizer_strings": len(tstr)},
+                         "printed_texts_not_separating": sep_fail, "tokenizer_strings": len(tstr),
+                         "flat_functions_parsed_by_the_parser_model": flat_n},
         "extraction_crosscheck": {"cases": len(sidx) + len(tidx), "agree": len(sidx) + len(tidx)},
         "spec_vs_bash": bash_stats,
         "model_mismatches": mism,
@@ -557,3 +589,12 @@ def search(ctx, res):
     sv = [v for v in r["spec_violations"] if not v.get("known")]
     sv.sort(key=lambda v: len(v["input"].get("source", "")))
     return {"evaluations": r["evaluations"], "spec_violations": sv[:5]}
+
+
+def run_code_only(ctx):
+    """the Coq development does not build: the property is still decided on the code (part A)"""
+    specv = []
+    progs, rt, verdicts, by_feat, unparsed, bash_stats = code_round_trip(ctx, True, specv)
+    return {"evaluations": len(progs), "distinct_nontrivial": len({s for s, _, f in progs if f}),
+            "rule": "code only (model did not build): parse/print/parse/print, AST equality, import, behaviour, bash",
+            "samples": [], "distribution": {"verdicts": verdicts}, "spec_vs_bash": bash_stats, "spec_violations": specv}
